@@ -7,6 +7,7 @@
 //@import wma.rs.tpl
 //@import ema.rs.tpl
 
+//@export-begin
 // ---- C15: moving averages are averages. The code is tied to the definitions below by the contracts of C02/C03
 // (next returns def(view) / follows the recurrence); the laws are lemmas over those definitions.
 pub open spec fn affine(s: Seq<R>, a: real, b: real) -> Seq<R> { Seq::new(s.len(), |i: int| mk(a * s[i]@ + b)) }
@@ -189,40 +190,6 @@ pub proof fn ema_superposition_step(p1: EMA, x1: R, q1: EMA, o1: R, p2: EMA, x2:
 }
 
 // ---------------------------------------------------------------- the trait-level convexity facts used by generic indicators (RSI), for concrete kinds
-impl MovingAverage for SMA {
-	proof fn input_always_ok(&self, x: &ValueType) {}
-	open spec fn convex() -> bool { true }
-	open spec fn within(&self, lo: real, hi: real) -> bool { all_within(self.window.view(), lo, hi) && lo <= hi }
-	proof fn lemma_within_step(pre: &Self, x: &ValueType, post: &Self, out: &ValueType, lo: real, hi: real) {
-		let v = post.window.view();
-		assert forall|i: int| 0 <= i < v.len() implies lo <= (#[trigger] v[i])@ <= hi by {
-			if i < v.len() - 1 { assert(v[i] == pre.window.view()[i + 1]); }
-		}
-		sma_range(v, lo, hi);
-	}
-	proof fn lemma_within_weaken(&self, lo: real, hi: real, lo2: real, hi2: real) {}
-}
-impl MovingAverage for WMA {
-	proof fn input_always_ok(&self, x: &ValueType) {}
-	open spec fn convex() -> bool { true }
-	open spec fn within(&self, lo: real, hi: real) -> bool { all_within(self.window.view(), lo, hi) && lo <= hi }
-	proof fn lemma_within_step(pre: &Self, x: &ValueType, post: &Self, out: &ValueType, lo: real, hi: real) {
-		let v = post.window.view();
-		assert forall|i: int| 0 <= i < v.len() implies lo <= (#[trigger] v[i])@ <= hi by {
-			if i < v.len() - 1 { assert(v[i] == pre.window.view()[i + 1]); }
-		}
-		wma_range(v, lo, hi);
-	}
-	proof fn lemma_within_weaken(&self, lo: real, hi: real, lo2: real, hi2: real) {}
-}
-impl MovingAverage for EMA {
-	proof fn input_always_ok(&self, x: &ValueType) {}
-	open spec fn convex() -> bool { true }
-	open spec fn within(&self, lo: real, hi: real) -> bool { lo <= self.value@ <= hi }
-	proof fn lemma_within_step(pre: &Self, x: &ValueType, post: &Self, out: &ValueType, lo: real, hi: real) {
-		ema_range_step(*pre, *x, *post, *out, lo, hi);
-	}
-	proof fn lemma_within_weaken(&self, lo: real, hi: real, lo2: real, hi2: real) {}
-}
+//@export-end
 } // verus!
 fn main() {}
